@@ -73,7 +73,8 @@ def rect_ring(x0, y0, x1, y1):
 def gen_shape(rng, kind=None, rectilinear=False):
     """returns {'kind':..., 'polys': [[ext, [holes]]...]} with dyadic relative coordinates"""
     q = lambda lo, hi: rng.randrange(int(lo * 16), int(hi * 16) + 1) / 16.0  # noqa
-    kinds = ['rect', 'rect', 'lshape', 'hole', 'multi', 'all', 'far'] + ([] if rectilinear else ['tri', 'quad', 'tri'])
+    kinds = ['rect', 'rect', 'lshape', 'hole', 'multi', 'all', 'far', 'bigl', 'bighole', 'frame'] + \
+        ([] if rectilinear else ['tri', 'quad', 'tri', 'bigtri', 'bigtri'])
     kind = kind or rng.choice(kinds)
     if kind == 'all':
         j = rng.randrange(0, 8) / 16.0
@@ -100,6 +101,45 @@ def gen_shape(rng, kind=None, rectilinear=False):
         a0, b0 = q(-0.1, 0.2), q(-0.1, 0.5)
         polys = [[rect_ring(a0, b0, a0 + q(0.2, 0.3), b0 + q(0.2, 0.5)), []],
                  [rect_ring(0.6, q(0.0, 0.4), q(0.8, 1.2), q(0.6, 1.0)), []]]
+    elif kind == 'bigl':
+        # bounding box contains the whole query bbox, the notch cuts into it
+        j = rng.randrange(0, 6) / 16.0
+        nx, ny = q(0.3, 0.7), q(0.3, 0.7)
+        corner = rng.choice(['ne', 'nw', 'se', 'sw'])
+        lo, hi = -0.5 - j, 1.5 + j
+        if corner == 'ne':
+            ring = [(lo, lo), (hi, lo), (hi, ny), (nx, ny), (nx, hi), (lo, hi)]
+        elif corner == 'nw':
+            ring = [(lo, lo), (hi, lo), (hi, hi), (nx, hi), (nx, ny), (lo, ny)]
+        elif corner == 'se':
+            ring = [(lo, lo), (nx, lo), (nx, ny), (hi, ny), (hi, hi), (lo, hi)]
+        else:
+            ring = [(nx, lo), (hi, lo), (hi, hi), (lo, hi), (lo, ny), (nx, ny)]
+        polys = [[ring, []]]
+    elif kind == 'bighole':
+        j = rng.randrange(0, 6) / 16.0
+        hx0, hy0 = q(0.1, 0.4), q(0.1, 0.4)
+        polys = [[rect_ring(-0.5 - j, -0.5, 1.5, 1.5 + j), [rect_ring(hx0, hy0, hx0 + q(0.3, 0.5), hy0 + q(0.3, 0.5))]]]
+    elif kind == 'frame':
+        # the query bbox lies completely in the hole: inside the bounding box, outside the geometry
+        j = rng.randrange(0, 6) / 16.0
+        polys = [[rect_ring(-1.0 - j, -1.0, 2.0, 2.0 + j), [rect_ring(-0.25, -0.25, 1.25, 1.25)]]]
+    elif kind == 'bigtri':
+        j = rng.randrange(0, 6) / 16.0
+        c = q(0.8, 1.4)
+        corner = rng.choice(['sw', 'ne'])
+        if corner == 'sw':
+            # x + y <= c (shifted by -0.5): cuts the query bbox diagonally
+            polys = [[[(-0.5 - j, -0.5), (c + 0.5 + j + 0.5, -0.5), (-0.5 - j, c + 0.5 + j + 0.5)], []]]
+        else:
+            polys = [[[(1.5 + j, 1.5), (1.5 + j - 2.0 - c, 1.5), (1.5 + j, 1.5 - 2.0 - c)], []]]
+    elif kind in ('fanA', 'fanB'):
+        # two different polygons with the same four leading vertices (two users, one view)
+        pre = [(-0.5, -0.5), (-0.5, 1.5), (-0.4375, 1.5), (-0.4375, 1.4375)]
+        if kind == 'fanA':
+            polys = [[pre + [(0.5, 1.4375), (0.5, -0.5)], []]]
+        else:
+            polys = [[pre + [(-0.4375, 0.5625), (1.5, 0.5625), (1.5, -0.5)], []]]
     elif kind == 'tri':
         polys = [[[(q(-0.2, 0.3), q(-0.2, 0.3)), (q(0.7, 1.2), q(-0.1, 0.5)), (q(0.2, 0.8), q(0.7, 1.2))], []]]
     else:  # convex quad
@@ -208,7 +248,7 @@ def shape_bounds(shape):
 
 
 def is_rectilinear(shape):
-    return shape['kind'] in ('rect', 'lshape', 'hole', 'multi', 'all', 'far')
+    return shape['kind'] in ('rect', 'lshape', 'hole', 'multi', 'all', 'far', 'bigl', 'bighole', 'frame', 'fanA', 'fanB')
 
 
 def gen_geom(rng, q_srs_choices=('EPSG:4326', 'EPSG:3857'), kind=None):
@@ -616,7 +656,11 @@ def gen_config(rng):
             tree.append(g)
         else:
             tree.append(items.pop())
-    return {'sources': sources, 'caches': caches, 'tree': tree}
+    cfg = {'sources': sources, 'caches': caches, 'tree': tree}
+    if rng.random() < 0.3:
+        x0, y0 = rng.randrange(-150, -60), rng.randrange(-70, -20)
+        cfg['wms_extent'] = {'srs': 'EPSG:4326', 'bbox': [x0, y0, x0 + rng.randrange(90, 200), y0 + rng.randrange(50, 100)]}
+    return cfg
 
 
 def config_yaml(cfg, d):
@@ -648,8 +692,9 @@ def config_yaml(cfg, d):
             e['layers'] = [lay(x) for x in t['layers']]
         return e
     doc = {
-        'services': {'wms': {'md': {'title': 't'}, 'srs': ['EPSG:4326', 'EPSG:3857'],
-                             'image_formats': ['image/png', 'image/jpeg']},
+        'services': {'wms': dict({'md': {'title': 't'}, 'srs': ['EPSG:4326', 'EPSG:3857'],
+                                  'image_formats': ['image/png', 'image/jpeg']},
+                                 **({'bbox_srs': ['EPSG:3857', dict(cfg['wms_extent'])]} if cfg.get('wms_extent') else {})),
                      'tms': {}, 'kml': {},
                      'wmts': {'restful': True, 'kvp': True, 'featureinfo_formats': [{'mimetype': 'text/plain', 'suffix': 'txt'}]}},
         'layers': [lay(t) for t in cfg['tree']],
@@ -705,13 +750,17 @@ class Names(object):
         return self.ids[n]
 
 
-def src_id(obj):
-    """identity of a map / info source object = number of the upstream layer it asks for"""
+def src_ids(obj):
+    """identities of a map / info source object = numbers of the upstream layers it asks for
+    (several for a source made by combined_layers)"""
     obj = getattr(obj, '_layer', obj) if type(obj).__name__ == 'LimitedLayer' else obj
     if hasattr(obj, 'tile_manager'):
         obj = obj.tile_manager.sources[0]
-    names = obj.client.request_template.params.layers
-    return int(names[0][1:])
+    return [int(n[1:]) for n in obj.client.request_template.params.layers]
+
+
+def src_id(obj):
+    return src_ids(obj)[0]
 
 
 def tree_terms(root, query, names):
@@ -762,6 +811,11 @@ def gen_requests(rng, cfg, nreq):
             if srs == 'EPSG:4326':
                 x0, y0 = rng.randrange(-170, 100), rng.randrange(-80, 40)
                 sx = rng.choice([10, 20, 40, 60])
+                if cfg.get('wms_extent') and rng.random() < 0.5:
+                    # reach beyond the configured extent of the WMS
+                    eb = cfg['wms_extent']['bbox']
+                    x0 = rng.choice([eb[0] - sx // 2, eb[2] - sx // 2, rng.randrange(eb[0], eb[2])])
+                    y0 = rng.choice([eb[1] - sx // 4, eb[3] - sx // 4, rng.randrange(eb[1], eb[3])])
                 bbox = [x0, y0, x0 + sx, y0 + sx * h / w]
             else:
                 x0, y0 = rng.randrange(-150, 100) * 100000, rng.randrange(-100, 60) * 100000
@@ -798,7 +852,10 @@ def gen_requests(rng, cfg, nreq):
         geomful = req['type'] != 'tile' or True
         req['cb'] = None if rng.random() < 0.06 else gen_callback(rng, names, focus=focus, want_geom=geomful)
         if req['cb'] is not None and rng.random() < 0.55:
-            if req['type'] == 'fi':
+            if req['type'] == 'map':
+                if rng.random() < 0.6:
+                    bias_callback(rng, req['cb'], names, 'map')
+            elif req['type'] == 'fi':
                 bias_callback(rng, req['cb'], names, 'featureinfo')
             elif req['type'] == 'tile':
                 bias_callback(rng, req['cb'], [req['layer']], 'featureinfo' if req['service'] == 'wmts_fi' else 'tile')
@@ -815,7 +872,26 @@ def gen_requests(rng, cfg, nreq):
                     if g['form'] == 'bbox' and g['shape']['kind'] not in ('rect', 'all', 'far'):
                         g['form'] = 'wkt'
         reqs.append(req)
+        if req['type'] in ('map', 'tile') and rng.random() < 0.12:
+            reqs.extend(fan_pair(rng, req, names))
     return reqs
+
+
+def fan_pair(rng, req, names):
+    """two users, one view: the same request twice, limited to two different polygons that are given as shapely
+    objects and share their four leading vertices (a history of two requests in one process)"""
+    pair = []
+    per_layer = rng.random() < 0.6
+    for kind in ('fanA', 'fanB'):
+        r = json.loads(json.dumps(req))
+        perm = {'map': 'true', 'tile': 'true', 'featureinfo': 'true'}
+        if per_layer:
+            perm['limited_to'] = 1
+        r['cb'] = {'kind': 'partial', 'layers': dict((n, dict(perm)) for n in names),
+                   'limited_to': None if per_layer else 1,
+                   'geoms': {'1': {'shape': gen_shape(rng, kind=kind), 'form': 'shapely', 'srs': None}}}
+        pair.append(r)
+    return pair
 
 
 def request_url(req):
@@ -858,6 +934,7 @@ class Recorder(object):
 
     def reset(self):
         self.render_layers = None
+        self.groups = []
         self.merge_call = None
         self.cb_calls = []
         self.tile_cov = 'not-called'
@@ -889,12 +966,22 @@ def run_app_config(ctx, cfg, reqs, out):
     rec = Recorder()
     orig_open = H.HTTPClient.open
     orig_rinit = W.LayerRenderer.__init__
+    orig_rlayer = W.LayerRenderer._render_layer
     orig_merge = M.LayerMerger.merge
     orig_trender = T.TileLayer.render
 
     def rinit(self, layers, query, request, **kw):
         rec.render_layers = list(layers)
         return orig_rinit(self, layers, query, request, **kw)
+
+    def rlayer(self, layer):
+        # the layer objects that are rendered, after combined_layers
+        try:
+            cov = layer.coverage if type(layer).__name__ == 'LimitedLayer' else None
+            rec.groups.append((None if cov is None else geom_key(cov), src_ids(layer)))
+        except Exception as e:  # noqa
+            rec.groups.append(('?', [-1]))
+        return orig_rlayer(self, layer)
 
     def merge(self, image_opts, size=None, bbox=None, bbox_srs=None, coverage=None):
         if rec.merge_call is None and rec.render_layers is not None:
@@ -919,6 +1006,7 @@ def run_app_config(ctx, cfg, reqs, out):
 
     H.HTTPClient.open = lambda self, url, data=None, method=None: up.open(url, data, method)
     W.LayerRenderer.__init__ = rinit
+    W.LayerRenderer._render_layer = rlayer
     M.LayerMerger.merge = merge
     T.TileLayer.render = trender
     try:
@@ -965,6 +1053,7 @@ def run_app_config(ctx, cfg, reqs, out):
     finally:
         H.HTTPClient.open = orig_open
         W.LayerRenderer.__init__ = orig_rinit
+        W.LayerRenderer._render_layer = orig_rlayer
         M.LayerMerger.merge = orig_merge
         T.TileLayer.render = orig_trender
 
@@ -1055,12 +1144,38 @@ def sample_pixels(rng_seed, w, h, k):
 
 
 def handle_map(ctx, cfg, req, cb, resp, status, rec, up_map, tree, names, extents, out, rep, layer_src_ids):
+    groups = None
     w, h = req['size']
     q_srs = req['srs']
     q_bbox = [float(v) for v in req['bbox']]
+    pw, ph = (q_bbox[2] - q_bbox[0]) / w, (q_bbox[3] - q_bbox[1]) / h
+    # services.wms.bbox_srs with an extent: the request is cut down to the extent before it is authorized and
+    # rendered; the callback's query_extent (the rendered sub bbox) is the frame of the geometries
+    ext = cfg.get('wms_extent')
+    want_bbox = list(q_bbox)
+    if ext and ext['srs'] == q_srs:
+        eb_ = [float(v) for v in ext['bbox']]
+        if not (eb_[0] <= q_bbox[0] and eb_[1] <= q_bbox[1] and eb_[2] >= q_bbox[2] and eb_[3] >= q_bbox[3]):
+            want_bbox = [max(q_bbox[0], eb_[0]), max(q_bbox[1], eb_[1]), min(q_bbox[2], eb_[2]), min(q_bbox[3], eb_[3])]
+            if want_bbox[0] >= want_bbox[2] - pw or want_bbox[1] >= want_bbox[3] - ph:
+                ctx.count('app.map.outside-or-at-the-edge-of-extent')
+                return
+    c_bbox = [float(v) for v in extents[0][1]] if (extents and extents[0] is not None) else list(want_bbox)
+    sub = c_bbox != q_bbox
+    cw, chh = (c_bbox[2] - c_bbox[0]) / pw, (c_bbox[3] - c_bbox[1]) / ph     # size of the frame in pixels
+    offx, offy = int(round((c_bbox[0] - q_bbox[0]) / pw)), int(round((q_bbox[3] - c_bbox[3]) / ph))
+
+    def frame(x, y):
+        """relative coordinates of the centre of response pixel (x, y) in the callback's frame"""
+        X, Y = q_bbox[0] + (x + 0.5) * pw, q_bbox[3] - (y + 0.5) * ph
+        rx, ry = (X - c_bbox[0]) / (c_bbox[2] - c_bbox[0]), (Y - c_bbox[1]) / (c_bbox[3] - c_bbox[1])
+        edge = 9.0 if req['format'] == 'image/jpeg' else 0.0      # jpeg blocks bleed over the edge of the sub image
+        if sub and not (edge < rx * cw < cw - edge and edge < ry * chh < chh - edge):
+            return None
+        return rx, ry
     # ---- observed decision
     if status == 200 and rec.render_layers is not None:
-        gidx = geom_index(cb, q_srs, q_bbox)
+        gidx = geom_index(cb, q_srs, c_bbox)
         ents = []
         for ly in rec.render_layers:
             lim = None
@@ -1071,6 +1186,7 @@ def handle_map(ctx, cfg, req, cb, resp, status, rec, up_map, tree, names, extent
         if rec.merge_call is not None and rec.merge_call['coverage'] is not None:
             gcov = gidx.get(geom_key(rec.merge_call['coverage']), -1)
         obs = '(W_ok %s %s)' % (llit(ents, lambda e: '(0, %s, %s)' % (olit(e[0]), zlit(e[1]))), olit(gcov))
+        groups = [(None if k is None else gidx.get(k, -1), ids) for k, ids in rec.groups]
     elif status == 401:
         obs, ents, gcov = 'W_401', [], None
     elif status == 403:
@@ -1083,8 +1199,10 @@ def handle_map(ctx, cfg, req, cb, resp, status, rec, up_map, tree, names, extent
         ctx.fail('map,wrong-service-string', 'callback called with service %r' % (rec.cb_calls[0][0],), rep)
     if extents and extents[0] is not None:
         es, eb = extents[0]
-        if es != q_srs or any(abs(a - b) > 1e-6 * max(1.0, abs(b)) for a, b in zip(eb, q_bbox)):
-            ctx.fail('map,wrong-query-extent', 'callback got query_extent %r for request %r %r' % (extents[0], q_srs, q_bbox), rep)
+        tolx = [1e-6 * max(1.0, abs(b)) + (1.01 * max(pw, ph) if want_bbox != q_bbox else 0) for b in want_bbox]
+        if es != q_srs or any(abs(a - b) > t for a, b, t in zip(eb, want_bbox, tolx)):
+            ctx.fail('map,wrong-query-extent', 'callback got query_extent %r for request %r %r (expected %r)'
+                     % (extents[0], q_srs, q_bbox, want_bbox), rep)
     # oracle: an explicitly requested layer that is part of the answer and is denied => 403 (or 401)
     if cb is not None and cbarg is not None and cb['kind'] not in ('full', 'unauthenticated'):
         expl = [n for n in cbarg if n in req['layers'] and not permitted_py(cb, 'map', n)]
@@ -1094,11 +1212,12 @@ def handle_map(ctx, cfg, req, cb, resp, status, rec, up_map, tree, names, extent
             ctx.fail('map,403-without-explicit-denied-layer', 'status 403 although every denied layer is implicit', rep)
     # sources behind caches that store tiles may be answered from disk: their upstream request is optional
     maybe = sorted(set(c['source'] for c in cfg['caches'] if c['store']))
-    out['map_terms'].append('(%s, %s, %s, %s, %s, %s, %s)' % (
+    out['map_terms'].append('(%s, %s, %s, %s, %s, %s, %s, %s)' % (
         tree, llit([names(n) for n in req['layers']]), cb_lit(cb, names), obs,
-        olit(None if cbarg is None else [names(n) for n in cbarg], llit), llit(up_map), llit(maybe)))
+        olit(None if cbarg is None else [names(n) for n in cbarg], llit), llit(up_map), llit(maybe),
+        olit(groups, lambda gs: llit(gs, lambda g: '(%s, %s)' % (olit(g[0]), llit(g[1]))))))
     out['map_descr'].append({'stream': 'app', 'case': {'config': cfg, 'requests': [req]}, 'status': status,
-                             'observed_render_list(lim,src)': ents, 'observed_global_coverage': gcov,
+                             'observed_render_list(lim,src)': ents, 'observed_rendered_groups(lim,srcs)': groups, 'observed_global_coverage': gcov,
                              'callback_layers_arg': cbarg, 'upstream_map_sources': up_map})
     if status != 200 or resp is None:
         return
@@ -1112,13 +1231,64 @@ def handle_map(ctx, cfg, req, cb, resp, status, rec, up_map, tree, names, extent
     from PIL import ImageColor
     bgc = ImageColor.getrgb('#' + req['bgcolor'][2:]) if req['bgcolor'] else (255, 255, 255)
     bg = tuple(bgc) + ((0,) if req['transparent'] else (255,))
-    margin = 9.0 if jpeg else 1.0
+    margin = 9.0 if jpeg else (1.6 if sub else 1.0)
     geoms = {} if cb is None else cb['geoms']
     pts = sample_pixels(hash((w, h, len(ents))) & 0xffff, w, h, 14)
     mc = rec.merge_call
+    # dense lattice (png answers): oracles 2, 3 and 4
+    #  2: outside the global geometry => background;  3: outside the geometry of every rendered layer => background;
+    #  4: the colour of a source whose layers (in this answer) are all limited to geometries that exclude the pixel
+    #     must not show (layer content outside its geometry, e.g. clipped with another layer's limit)
+    lim_ents = [(l, sx) for l, sx in ents if l is not None and l > 0]
+    use = set(l for l, _s in lim_ents) | (set([gcov]) if gcov is not None and gcov > 0 else set())
+    solid_src, solid_tol = None, 0
+    if len(ents) == 1 and all(sc['opacity'] is None for sc in cfg['sources'] if sc['id'] == ents[0][1]):
+        solid_src = ents[0][1]
+        solid_tol = 40 if any(c['format'] == 'image/jpeg' and c['source'] == solid_src for c in cfg['caches']) else 3
+    if use and not jpeg:
+        blend_any = (not req['transparent']) and rec.merge_call is not None and any(
+            o is not None and o.opacity is not None and o.opacity < 1 for _m, o, _c, _i, _cv in rec.merge_call['layers'])
+        for y in range(1, h, 2):
+            for x in range(1, w, 2):
+                fr = frame(x, y)
+                if fr is None:
+                    continue
+                rx, ry = fr
+                got = rgba.getpixel((x, y))
+                dcls = dict((g, shape_class(geoms[str(g)]['shape'], rx, ry, cw, chh, margin)) for g in use)
+                if gcov is not None and gcov > 0 and dcls[gcov] == 'out' and got != bg:
+                    ctx.fail('map,global-clip-leak', 'pixel (%d,%d) lies outside the global geometry but is %r (background %r)'
+                             % (x, y, got, bg), rep)
+                    return
+                if ents and all(l is not None and l > 0 and dcls[l] == 'out' for l, _s in ents) and got != bg:
+                    ctx.fail(SIG_BLEND if blend_any else 'map,layer-clip-leak',
+                             'pixel (%d,%d) lies outside the geometry of every rendered layer but is %r (background %r)'
+                             % (x, y, got, bg), rep)
+                    return
+                # content is kept well inside: a single opaque, fully visible source
+                if len(ents) == 1 and solid_src is not None and all(v == 'in' for v in dcls.values()):
+                    if got[3] != 255 or max(abs(a - b) for a, b in zip(got[:3], color_of(solid_src))) > solid_tol:
+                        ctx.fail('map,content-lost-inside', 'pixel (%d,%d) lies well inside every geometry that applies but is %r, '
+                                 'the upstream colour is %r' % (x, y, got, color_of(solid_src)), rep)
+                        return
+                if got[3] != 255:
+                    continue
+                for sid in set(sx for _l, sx in lim_ents):
+                    if got[:3] != color_of(sid):
+                        continue
+                    lims = [l for l, sx in ents if sx == sid]
+                    if all(l is not None and l > 0 and dcls[l] == 'out' for l in lims):
+                        ctx.fail('map,layer-content-outside-its-geometry',
+                                 'pixel (%d,%d) shows the colour %r of upstream layer u%d although every layer using it is '
+                                 'limited to a geometry that excludes the pixel' % (x, y, got, sid), rep)
+                        return
     for (x, y) in pts:
-        rx, ry = (x + 0.5) / w, 1 - (y + 0.5) / h
-        cls = dict((int(g), shape_class(spec['shape'], rx, ry, w, h, margin)) for g, spec in geoms.items())
+        fr = frame(x, y)
+        if fr is None:
+            continue
+        rx, ry = fr
+        mx, my = x - offx, y - offy
+        cls = dict((int(g), shape_class(spec['shape'], rx, ry, cw, chh, margin)) for g, spec in geoms.items())
         got = rgba.getpixel((x, y))
         # oracle 2: outside the global geometry => background
         if gcov is not None and gcov > 0 and cls[gcov] == 'out':
@@ -1142,7 +1312,9 @@ def handle_map(ctx, cfg, req, cb, resp, status, rec, up_map, tree, names, extent
         if any(c is not None and (c < 0 or cls[c] == 'near') for c in cov_of) or (gcov is not None and (gcov < 0 or cls[gcov] == 'near')):
             continue
         metas, col = [], []
-        ok = True
+        ok = mc.get('result') is not None and 0 <= mx < mc['result'].size[0] and 0 <= my < mc['result'].size[1]
+        if not ok:
+            continue
         for (mode, opts, clip, im, _cv), c in zip(mc['layers'], cov_of):
             op = None
             if opts is not None and opts.opacity is not None:
@@ -1158,7 +1330,7 @@ def handle_map(ctx, cfg, req, cb, resp, status, rec, up_map, tree, names, extent
                     olit(None if opts.transparent is None else bool(opts.transparent), blit),
                     olit(op, lambda q: '(%d, %d)' % q)),
                 blit(clip)))
-            col.append('(%s, %s)' % (px_lit(im.getpixel((x, y))), blit(c is not None and cls[c] == 'out')))
+            col.append('(%s, %s)' % (px_lit(im.getpixel((mx, my))), blit(c is not None and cls[c] == 'out')))
         if not ok or len(metas) == 0:
             continue
         omode, otr, obg = mc['opts']
@@ -1169,9 +1341,9 @@ def handle_map(ctx, cfg, req, cb, resp, status, rec, up_map, tree, names, extent
         rol = '(mk_ropts %s %s %s)' % (olit(omode, lambda m: 'M_' + m), olit(None if otr is None else bool(otr), blit),
                                       olit(None if obg is None else tuple(obg[:3]), lambda c: '(%d, %d, %d)' % c))
         merged = mc.get('result')
-        if merged is None or merged.size != (w, h):
+        if merged is None or abs(merged.size[0] - cw) > 1.01 or abs(merged.size[1] - chh) > 1.01:
             continue
-        mgot = merged.getpixel((x, y))
+        mgot = merged.getpixel((mx, my))
         # the response is the encoded merged image (png may be quantised, jpeg is lossy)
         if max(abs(a - b) for a, b in zip(got, mgot)) > (40 if jpeg else 4) and not (jpeg and mgot[3] == 0):
             ctx.fail('map,response-differs-from-merged-image', 'pixel (%d,%d) of the response is %r, the merged image has %r'
@@ -1416,13 +1588,16 @@ Definition strip (o : wms_out) : wms_out :=
 Definition inl (l : list Z) (g : Z) : bool := mem g l.
 Definition inll (l : list (list Z)) (gs : list Z) : bool := existsb (list_eqb Z.eqb gs) l.
 """
-MAP_TYPE = 'list wlayer * list Z * option cbres * wms_out * option (list Z) * list Z * list Z'
-MAP_CHECK = ("fun c => let '(tree, req, cb, obs, cbarg, log, maybe) := c in "
+MAP_TYPE = 'list wlayer * list Z * option cbres * wms_out * option (list Z) * list Z * list Z * option (list group)'
+MAP_CHECK = ("fun c => let '(tree, req, cb, obs, cbarg, log, maybe, groups) := c in "
              "let m := wms_map tree req cb in "
              "wms_out_eqb (strip m) obs "
              "&& match cbarg with Some a => list_eqb Z.eqb a (wms_map_cbarg tree req) | None => true end "
              "&& forallb (fun x => mem x (wms_log m)) log "
-             "&& forallb (fun x => mem x log || mem x maybe) (wms_log m)")
+             "&& forallb (fun x => mem x log || mem x maybe) (wms_log m) "
+             "&& match groups, m with "
+             "   | Some gs, W_ok rl _ => groups_ok (map (fun e : rentry => (snd (fst e), snd e)) rl) gs "
+             "   | _, _ => true end")
 FI_TYPE = 'list wlayer * list Z * list Z * option cbres * list Z * fi_out'
 FI_CHECK = ("fun c => let '(tree, ql, ls, cb, pin, obs) := c in "
             "match wms_featureinfo tree ql ls cb (inl pin), obs with "
